@@ -1,9 +1,10 @@
 """Round-5 seeded changes: copy the confirmed ones from a staging directory (default /tmp/seed5/out) into /verif/seeded/<P>-i/
 with meta.json (confirmation + the verdict of the property's own check as recorded by seedtool.py confirm / run).
-Usage: adopt_round5.py [stage]      (tooling, not part of any registered check)"""
+Usage: adopt_round5.py [stage [suffix]]      (tooling, not part of any registered check)"""
 import json, os, re, shutil, subprocess, sys
 
 STAGE = sys.argv[1] if len(sys.argv) > 1 else "/tmp/seed5/out"
+SUFFIX = sys.argv[2] if len(sys.argv) > 2 else "i"
 VERIF = os.path.dirname(os.path.dirname(os.path.abspath(__file__)))
 head = subprocess.run("git -C /repo rev-parse --short HEAD", shell=True, capture_output=True, text=True).stdout.strip()
 rows = []
@@ -30,7 +31,7 @@ for p in sorted(os.listdir(STAGE)):
                 verdict = "missed"
         except Exception:
             verdict = "run output unreadable"
-    dst = os.path.join(VERIF, "seeded", f"{p}-i")
+    dst = os.path.join(VERIF, "seeded", f"{p}-{SUFFIX}")
     os.makedirs(dst, exist_ok=True)
     for f in ("patch.diff", "demo.py", "notes.md"):
         shutil.copy(os.path.join(d, f), os.path.join(dst, f))
@@ -39,7 +40,7 @@ for p in sorted(os.listdir(STAGE)):
     if os.path.exists(os.path.join(dst, "meta.json")):
         old = json.load(open(os.path.join(dst, "meta.json")))
     meta = {
-        "id": f"{p}-i", "property": p, "round": 5,
+        "id": f"{p}-{SUFFIX}", "property": p, "round": 5,
         "origin": "fresh sub-agent given only the property text, a list of the earlier changes to avoid, and its own scratch worktree; nothing from /verif",
         "breaks": notes[:900],
         "needs_to_manifest": "see notes.md (the agent's own description of the trigger)",
